@@ -239,6 +239,20 @@ fn run(cmd: &str, args: &Args, gs: Vec<&'static dyn GrammarUnderTest>) -> i32 {
     let only = args.get("only").map(String::from);
     let grammars: Vec<GInfo> = gs.into_iter().filter(|g| only.as_deref().map(|o| g.id() == o).unwrap_or(true)).map(GInfo::new).collect();
     let world = World { grammars };
+    if cmd == "c09cmp" {
+        let a = args.get("debug").expect("--debug");
+        let b = args.get("release").expect("--release");
+        return match crate::props::p09::compare_dumps(a, b, args.get("status").unwrap_or("0")) {
+            Some(v) => {
+                report_violation("C09", &v);
+                1
+            }
+            None => {
+                println!("C09 release-like comparison ok");
+                0
+            }
+        };
+    }
     if cmd == "replay" {
         let path = args.positional.get(1).expect("replay <file>");
         let doc: Value = serde_json::from_str(&std::fs::read_to_string(path).expect("read replay")).expect("json");
@@ -256,7 +270,9 @@ fn run(cmd: &str, args: &Args, gs: Vec<&'static dyn GrammarUnderTest>) -> i32 {
         Some(v) => {
             ctx.ev.violations = 1;
             ctx.ev.violation_sample(&v);
-            ctx.ev.write();
+            if args.get("no-evidence").is_none() {
+                ctx.ev.write();
+            }
             report_violation(prop, &v);
             1
         }
@@ -265,7 +281,9 @@ fn run(cmd: &str, args: &Args, gs: Vec<&'static dyn GrammarUnderTest>) -> i32 {
                 eprintln!("runner: property {} has no driver", prop);
                 return 2;
             }
-            ctx.ev.write();
+            if args.get("no-evidence").is_none() {
+                ctx.ev.write();
+            }
             println!("{} ok: {} evaluations, {} distinct non-trivial", prop, ctx.ev.evaluations, ctx.ev.distinct_nontrivial());
             0
         }
